@@ -1281,7 +1281,22 @@ def _np_isin(a, b, **kw):
     return XArray(a.shape, [any(x == y for y in bb) for x in a.data])
 
 
+def _np_sign(a):
+    def sg(x):
+        x = exact(x)
+        if isinstance(x, (int, Fraction)):
+            return Q((x > 0) - (x < 0))
+        if isinstance(x, MQ):
+            return Q(x.sign()) if hasattr(x, "sign") else (_ for _ in ()).throw(XArrayError("np.sign of a surd"))
+        raise XArrayError("np.sign needs concrete data: outside the table grammar")
+
+    if isinstance(a, XArray):
+        return type(a)(a.shape, [sg(x) for x in a.data]) if type(a) is not XArray else XArray(a.shape, [sg(x) for x in a.data])
+    return sg(a)
+
+
 _NP_FUNCS = {
+    "sign": _np_sign,
     "isin": _np_isin,
     "in1d": _np_isin,
     "tile": _np_tile,
